@@ -578,6 +578,9 @@ pub fn generate(a: &Args, out: &mut Out) {
         vec![1000, 2, 400, 2000, 1, 0, 0, 8, 0, 0, 8, 0, 0, 1, 0, 0],
         // a fatal error while a stream request is in flight is still fatal
         vec![1000, 0, 400, 2000, 1, 0, 0, 9, 120, 1, 1, 0, 0],
+        // the same when the request in flight is the parked one (timed out on the previous connection), retried first
+        vec![1000, 0, 400, 300, 7, 3000, 1, 9, 120, 1, 1, 0, 0],
+        vec![1000, 0, 400, 300, 1, 0, 0, 7, 3000, 2, 9, 150, 1],
     ];
     let fixed: Vec<Vec<u64>> = fixed.into_iter().map(|mut c| { place_refusals(&mut c); c }).collect();
     if !a.mode.contains("random-only") {
